@@ -12,18 +12,21 @@ import vlib
 LEVEL = "proof"
 RULE = ("generated pairwise_ranks.tsv files for outrank_task_result_summary: 0..12 features (plain, transformer-suffixed, "
         "' AND ' interactions of order <= 3), annotated '-(cardinality; coverage)' or plain names, 1..4 label rows per feature in "
-        "either orientation, feature-feature rows, label-label rows, label-prefixed look-alikes, negative / tied / decimal / dyadic "
+        "either orientation, feature-feature rows, label-label rows, label-prefixed look-alikes, names containing AND / and / BRAND / "
+        "'AND' alone / a dash / a blank, labels with a dash, negative / tied / decimal / dyadic / nearly equal "
         "scores, heuristic names with and without 'MI', interaction order 1..3; feature_singles.tsv and "
         "feature_singles_aggregated.tsv are compared with the Coq model (rows exactly, order up to ties, scores within the stated "
-        "tolerance) and judged by the Coq checkers singles_okb / aggregated_okb; non-trivial = at least 2 features with a label "
+        "tolerance, NaN cells where the code divides 0/0) and judged by the Coq checkers cells_okb / aggregated_cells_okb; non-trivial = at least 2 features with a label "
         "row and 2 distinct medians; distinct = distinct canonical cases")
-THEOREMS = ["C18_once", "C18_median", "C18_label_scores", "C18_row_order", "C18_sorted_desc", "C18_minmax", "C18_no_minmax",
-            "C18_aggregated_of_singles", "C18_aggregated", "C18_aggregated_wellformed", "C18_label_rule", "C18_constituents",
-            "C18_check_sound", "C18_check_aggregated_sound", "C18_model_ok"]
+THEOREMS = ["C18_once", "C18_median", "C18_nan_table", "C18_nan_cells", "C18_label_scores", "C18_row_order", "C18_sorted_desc",
+            "C18_minmax", "C18_minmax_cells", "C18_no_minmax", "C18_aggregated_of_singles", "C18_aggregated",
+            "C18_aggregated_wellformed", "C18_label_rule", "C18_constituents", "C18_and_substring_prefix_refuted",
+            "C18_dash_label_refuted", "C18_dash_constituent_refuted", "C18_sep_suffix_refuted", "C18_check_sound",
+            "C18_check_aggregated_sound", "C18_check_aggregated_cells_sound", "C18_model_ok"]
 HEADER = ("From Coq Require Import List QArith ZArith NArith.\nFrom Outrank Require Import Rank.QMedian Summary.Summary.\n"
           "Import ListNotations.\nOpen Scope Q_scope.\n"
           "Definition encq (q : Q) : Z * Z := (Qnum q, Zpos (Qden q)).\n"
-          "Definition enct (l : list (name * Q)) := map (fun r => (fst r, encq (snd r))) l.\n")
+          "Definition enct (l : list (name * option Q)) := map (fun r => (fst r, option_map encq (snd r))) l.\n")
 
 HEUR_MI = ["MI", "MI-numba-randomized", "MI-numba", "AMI", "MI-numba-3mr", "surrogate-MI-x"]
 HEUR_NO = ["surrogate-SGD", "max-value-coverage", "correlation-Pearson", "Constant", "surrogate-SVM", "mi-lower", "M-I", "IM"]
@@ -37,15 +40,22 @@ U = 2.0 ** -53
 # ---------------------------------------------------------------------------
 # generation
 
+FIXED_NAMES = ["BRAND", "AND", "and", "ANDROID", "sAND", "x AND", "AND y", "a-b", "my-feat", "ad size", "STAND-IN", "B AND"]
+DASH_LABELS = ["my-label", "y-1"]
+
+
 def gen_case(rng):
-    label = rng.choice(LABELS)
+    label = rng.choice(LABELS) if rng.random() < 0.95 else rng.choice(DASH_LABELS)
     annotated = rng.random() < 0.5
     order = rng.choice([1, 1, 2, 2, 3])
     nbase = rng.randint(0, 7) if rng.random() < 0.85 else rng.randint(8, 12)
     base = []
     seen = {label}
     while len(base) < nbase:
-        nme = rng.choice(STEMS) + str(rng.randint(0, 30)) + rng.choice(TRS)
+        if rng.random() < 0.2:           # names with the substring AND / and, a dash, a blank ("AND" alone, BRAND, a-b, ...)
+            nme = rng.choice(FIXED_NAMES)
+        else:
+            nme = rng.choice(STEMS) + str(rng.randint(0, 30)) + rng.choice(TRS)
         if nme not in seen:
             seen.add(nme)
             base.append(nme)
@@ -66,7 +76,7 @@ def gen_case(rng):
         return "%s-(%d; %d)" % (nme, rng.randint(1, 5000), rng.randint(0, 100))
     full = {f: ann(f) for f in feats}
     lab_full = ann(label)
-    smode = rng.choice(["dyadic", "decimal", "ties", "neg", "int", "tiny"])
+    smode = rng.choice(["dyadic", "decimal", "ties", "neg", "int", "tiny", "dyadic", "decimal", "neardeg"])
 
     def score():
         if smode == "dyadic":
@@ -79,6 +89,8 @@ def gen_case(rng):
             return "%.4f" % rng.uniform(-5.0, -0.001)
         if smode == "int":
             return str(rng.randint(-3, 9))
+        if smode == "neardeg":           # spread far below 1e-9 * magnitude: excluded from the MI score comparison, counted
+            return "1.%012d" % rng.randint(0, 99)
         return "%.9f" % rng.uniform(0.0, 0.001)
     rows = []
     all_equal = rng.random() < 0.06
@@ -120,8 +132,13 @@ def qlit(fr):
     return coqparse.lit(Fraction(fr))
 
 
+def cell_coq(v):
+    return "None" if v is None else "(Some %s)" % qlit(v)
+
+
 def table_coq(rows):
-    return "[" + "; ".join("(%s%%N, %s)" % (vlib.strlit(n), qlit(v)) for n, v in rows) + "]"
+    """[(name, float)] -> Coq list (name * option Q); NaN -> None, doubles as exact rationals"""
+    return "[" + "; ".join("(%s%%N, %s)" % (vlib.strlit(n), cell_coq(None if math.isnan(v) else Fraction(v))) for n, v in rows) + "]"
 
 
 def parse_float(txt):
@@ -142,11 +159,13 @@ def obs_table(tab):
             rows.append([cells[0], parse_float(cells[1])])
         except ValueError:
             return None
+    if any(math.isinf(v) for _, v in rows):
+        return None
     return rows
 
 
 def tie_groups(rows):
-    """rows [(name, Fraction)] sorted descending -> list of (score, sorted names)"""
+    """rows [(name, key)] in output order -> list of (key, sorted names)"""
     groups = []
     for nme, v in rows:
         if groups and groups[-1][0] == v:
@@ -156,49 +175,9 @@ def tie_groups(rows):
     return [(v, sorted(ns)) for v, ns in groups]
 
 
-def evaluate(cases, pid="C18"):
-    """Runs impl and model; returns per case dict(status, clause, impl, model, checker)."""
-    if not cases:
-        return []
-    impl = vlib.run_impl("impl_c18.py", {"cases": cases})["results"]
-    exprs = []
-    for c, r in zip(cases, impl):
-        T = "[" + "; ".join("(%s%%N, %s%%N, %s)" % (vlib.strlit(a), vlib.strlit(b), qlit(Fraction(s))) for a, b, s in c["rows"]) + "]"
-        heur, lbl = vlib.strlit(c["heuristic"]) + "%N", vlib.strlit(c["label"]) + "%N"
-        so = obs_table(r.get("singles")) if r.get("ok") else None
-        ao = obs_table(r.get("aggregated")) if r.get("ok") else None
-        finite = so is not None and all(math.isfinite(v) for _, v in so)
-        chk1 = chk2 = "true"          # placeholders when a checker is not applicable (judge() records that as None)
-        if so is not None and finite:
-            chk1 = "singles_okb tol %s %s T %s" % (heur, lbl, table_coq(so))
-            if ao is not None and all(math.isfinite(v) for _, v in ao) and c["order"] > 1:
-                chk2 = "aggregated_okb (1 # 1000000000000) %s %s" % (table_coq(so), table_coq(ao))
-        exprs.append("let T := %s in let m := medians %s T in let lo := qmin (map snd m) in let hi := qmax (map snd m) in "
-                     "let tol := @@TOL@@ in "
-                     "(enct (fst (summary %s %s %d T)), match snd (summary %s %s %d T) with Some a => Some (enct a) | None => None end, "
-                     "encq lo, encq hi, enct m, %s, %s)"
-                     % (T, lbl, heur, lbl, c["order"], heur, lbl, c["order"], chk1, chk2))
-    # the tolerance needs the spread of the medians: compute it from the exact rows in Python (it is only a bound)
-    final = []
-    for c, e in zip(cases, exprs):
-        tol = Fraction(1, 10 ** 12)
-        if "MI" in c["heuristic"]:
-            tol = score_tol(c)
-        final.append(e.replace("@@TOL@@", qlit(tol)))
-    vals = vlib.coq_eval(pid, HEADER, final, shard=40)
-    out = []
-    for c, r, v, e in zip(cases, impl, vals, final):
-        j = judge(c, r, v)
-        if "singles_okb tol" not in e:
-            j["checker"]["singles_okb"] = None
-        if "aggregated_okb (" not in e:
-            j["checker"]["aggregated_okb"] = None
-        out.append(j)
-    return out
-
-
 def label_medians(c):
-    """Independent of the Coq model only in being Python: used for the TOLERANCE and the non-triviality rule, never for a verdict."""
+    """Independent of the Coq model only in being Python: used for the TOLERANCE, the exclusion rule and the non-triviality rule,
+    never for a verdict."""
     lab = c["label"]
     acc = {}
     for a, b, s in c["rows"]:
@@ -214,29 +193,85 @@ def label_medians(c):
     return med
 
 
-def score_tol(c):
+ABS = Fraction(1, 10 ** 12)
+
+
+def tolerance(c):
+    """(tol, near_degenerate).  ONE absolute tolerance per case, used identically by the Python comparison and the Coq checkers.
+    raw medians (no 'MI'): 1e-12 * max(1, max|median|)  (parse + one halving in doubles);
+    'MI': normalised scores lie in [0,1]; (x-lo)/(hi-lo) in doubles has conditioning max|median|/(hi-lo):
+          1e-12 + 1e-14 * max|median| / (hi-lo), and cases with (hi-lo) < 1e-9 * max|median| are NOT compared on scores
+          (counted as near-degenerate) instead of letting the tolerance grow: the bound is therefore <= 1e-12 + 1e-5."""
     med = label_medians(c)
-    if len(med) < 1:
-        return Fraction(1, 10 ** 12)
+    if not med:
+        return ABS, False
     lo, hi = min(med.values()), max(med.values())
+    M = max(abs(lo), abs(hi))
+    if "MI" not in c["heuristic"]:
+        return ABS * max(1, M), False
     if hi == lo:
-        return Fraction(1, 10 ** 12)
-    M = max(abs(lo), abs(hi), 1)
-    # (x - lo) / (hi - lo) in doubles: parse + two subtractions + one division, conditioning M / (hi - lo)
-    return Fraction(1, 10 ** 12) + Fraction(1, 10 ** 14) * M / (hi - lo)
+        return ABS, False
+    if (hi - lo) < Fraction(1, 10 ** 9) * M:
+        return ABS, True
+    return ABS + Fraction(1, 10 ** 14) * M / (hi - lo), False
+
+
+def evaluate(cases, pid="C18"):
+    """Runs impl and model; returns per case dict(status, clause, impl, model, checker)."""
+    if not cases:
+        return []
+    impl = vlib.run_impl("impl_c18.py", {"cases": cases})["results"]
+    exprs = []
+    applic = []
+    for c, r in zip(cases, impl):
+        T = "[" + "; ".join("(%s%%N, %s%%N, %s)" % (vlib.strlit(a), vlib.strlit(b), qlit(Fraction(s))) for a, b, s in c["rows"]) + "]"
+        heur, lbl = vlib.strlit(c["heuristic"]) + "%N", vlib.strlit(c["label"]) + "%N"
+        so = obs_table(r.get("singles")) if r.get("ok") else None
+        ao = obs_table(r.get("aggregated")) if r.get("ok") else None
+        tol, near = tolerance(c)
+        chk1 = chk2 = "true"          # placeholders when a checker is not applicable (recorded as None)
+        a1 = a2 = False
+        if so is not None and not near:
+            chk1, a1 = "cells_okb tol %s %s T %s" % (heur, lbl, table_coq(so)), True
+            if ao is not None and c["order"] > 1:
+                chk2, a2 = "aggregated_cells_okb tol %s %s" % (table_coq(so), table_coq(ao)), True
+        applic.append((a1, a2))
+        exprs.append("let T := %s in let tol := %s in "
+                     "(enct (fst (summary %s %s %d T)), match snd (summary %s %s %d T) with Some a => Some (enct a) | None => None end, "
+                     "nan_table %s %s T, enct (some_cells (pre %s T)), %s, %s)"
+                     % (T, qlit(tol), heur, lbl, c["order"], heur, lbl, c["order"], heur, lbl, lbl, chk1, chk2))
+    vals = vlib.coq_eval(pid, HEADER, exprs, shard=40)
+    out = []
+    for c, r, v, (a1, a2) in zip(cases, impl, vals, applic):
+        j = judge(c, r, v)
+        if not a1:
+            j["checker"]["cells_okb"] = None
+        if not a2:
+            j["checker"]["aggregated_cells_okb"] = None
+        out.append(j)
+    return out
+
+
+def dec_table(t):
+    """parsed [(codes, cell)] -> [(name, Fraction | None)]; a cell is None or ('Some', (num, den))"""
+    return [(vlib.from_codes(n), None if cell is None else Fraction(*cell[1])) for n, cell in t]
+
+
+def show(t):
+    return None if t is None else [[n, None if x is None else float(x)] for n, x in t]
 
 
 def judge(c, r, v):
-    m_s, m_a, lo, hi, med, chk1, chk2 = v
-    model_s = [(vlib.from_codes(n), Fraction(a, b)) for n, (a, b) in m_s]
-    model_a = None if m_a is None else [(vlib.from_codes(n), Fraction(a, b)) for n, (a, b) in m_a[1]]
-    lo, hi = Fraction(*lo), Fraction(*hi)
+    m_s, m_a, nan_tab, m_pre, chk1, chk2 = v
+    model_s = dec_table(m_s)
+    model_a = None if m_a is None else dec_table(m_a[1])
+    pre = dec_table(m_pre)                       # medians in output order, before normalisation (exact)
     mi = "MI" in c["heuristic"]
-    degenerate = mi and len(model_s) >= 1 and lo == hi
-    res = dict(status="ok", clause=None, impl=None, model={"singles": [[n, float(x)] for n, x in model_s],
-                                                            "aggregated": None if model_a is None else [[n, float(x)] for n, x in model_a]},
-               checker={"singles_okb": chk1, "aggregated_okb": chk2}, degenerate=degenerate,
-               nfeat=len(model_s), distinct_medians=len({x for _, (a, b) in med for x in [Fraction(a, b)]}))
+    tol, near = tolerance(c)
+    tolf = float(tol)
+    res = dict(status="ok", clause=None, impl=None, model={"singles": show(model_s), "aggregated": show(model_a)},
+               checker={"cells_okb": chk1, "aggregated_cells_okb": chk2}, degenerate=bool(nan_tab), near_degenerate=near,
+               nfeat=len(model_s), distinct_medians=len({x for _, x in pre}), tol=tolf)
     if not r.get("ok"):
         res.update(status="violation", clause="the summary task terminates normally", impl=r.get("error"))
         return res
@@ -244,14 +279,13 @@ def judge(c, r, v):
     ao = obs_table(r.get("aggregated"))
     res["impl"] = {"singles": r.get("singles"), "aggregated": r.get("aggregated")}
     if so is None:
-        res.update(status="violation", clause="feature_singles.tsv is written as (feature, score) rows")
+        res.update(status="violation", clause="feature_singles.tsv is written as (feature, finite-or-empty score) rows")
         return res
-    tol = float(score_tol(c)) if mi else 1e-12
 
     def fail(clause):
         res.update(status="violation", clause=clause)
         return res
-    # --- once / exactly the features with a label row
+    # --- once / exactly the features with a label row (always determined)
     inames = [n for n, _ in so]
     mnames = [n for n, _ in model_s]
     if len(set(inames)) != len(inames):
@@ -259,49 +293,55 @@ def judge(c, r, v):
     if set(inames) != set(mnames):
         return fail("C18_once: listed features differ from those scored against the label (impl-only %s, missing %s)"
                     % (sorted(set(inames) - set(mnames))[:3], sorted(set(mnames) - set(inames))[:3]))
-    if degenerate:
-        # 0/0 in the code (NaN cells); the property's min-max clause needs two distinct medians: scores not compared
-        res["status"] = "ok-degenerate"
-        if c["order"] > 1 and model_a is not None:
-            if ao is None or set(n for n, _ in ao) != set(n for n, _ in model_a):
-                return fail("C18_aggregated: constituents listed differ")
-        return res
-    md = dict(model_s)
-    for n, x in so:
-        if not math.isfinite(x):
-            return fail("C18_median/minmax: score of %r is not a finite number" % n)
-        if abs(x - float(md[n])) > tol * max(1.0, abs(float(md[n]))):
-            what = "C18_minmax: min-max normalised median" if mi else "C18_median: median of the feature-label scores"
-            return fail("%s of %r is %.15g, expected %.15g" % (what, n, x, float(md[n])))
-    # --- descending order, ties as multisets
-    groups = tie_groups(model_s)
+    # --- order: descending medians, ties (of the exact medians) as multisets (always determined: the sort precedes the division)
     pos = 0
-    for val, names in groups:
+    for val, names in tie_groups(pre):
         seg = sorted(inames[pos:pos + len(names)])
         if seg != names:
             return fail("C18_sorted_desc: rows are not in descending score order (position %d)" % pos)
         pos += len(names)
-    if not chk1:
-        return fail("C18_check: the Coq checker singles_okb rejects feature_singles.tsv")
-    # --- aggregated table
-    if c["order"] > 1:
+    agg_expected = c["order"] > 1
+    if agg_expected:
         if ao is None:
-            return fail("C18_aggregated: feature_singles_aggregated.tsv is written for interaction order > 1")
+            return fail("C18_aggregated: feature_singles_aggregated.tsv is written (as (feature, score) rows) for interaction order > 1")
         ma = dict(model_a)
-        if len(ao) != len(set(n for n, _ in ao)):
+        anames = [n for n, _ in ao]
+        if len(anames) != len(set(anames)):
             return fail("C18_aggregated: a constituent is listed more than once")
-        if set(n for n, _ in ao) != set(ma):
+        if set(anames) != set(ma):
             return fail("C18_aggregated: constituents listed differ (impl-only %s, missing %s)" % (
-                sorted(set(n for n, _ in ao) - set(ma))[:3], sorted(set(ma) - set(n for n, _ in ao))[:3]))
-        for n, x in ao:
-            if not math.isfinite(x) or abs(x - float(ma[n])) > tol * max(1.0, abs(float(ma[n]))):
-                return fail("C18_aggregated: combined score of %r is %.15g, expected the median %.15g of the scores of the "
-                            "interactions containing it" % (n, x, float(ma[n])))
-        if not chk2:
-            return fail("C18_check: the Coq checker aggregated_okb rejects feature_singles_aggregated.tsv")
+                sorted(set(anames) - set(ma))[:3], sorted(set(ma) - set(anames))[:3]))
+    elif r.get("aggregated") is not None:
+        res["note"] = "aggregated table written although interaction order is 1"
+    # --- scores
+    if nan_tab:
+        # 'MI' heuristic over a non-empty table with all medians equal: the code's 0/0.  Determined: every cell is NaN.
+        res["status"] = "ok-degenerate"
+        if not all(math.isnan(x) for _, x in so):
+            return fail("C18_nan_cells: 'MI' heuristic and all medians equal: NaN (empty) cells expected, got %s" % so[:3])
+        if agg_expected and not all(math.isnan(x) for _, x in ao):
+            return fail("C18_nan_cells: aggregated scores of a NaN table must be NaN, got %s" % ao[:3])
+    elif near:
+        # spread below 1e-9 of the magnitude under an 'MI' heuristic: scores not compared (the division amplifies parse errors)
+        res["status"] = "ok-near-degenerate"
+        return res
     else:
-        if r.get("aggregated") is not None:
-            res["note"] = "aggregated table written although interaction order is 1"
+        md = dict(model_s)
+        for n, x in so:
+            if math.isnan(x):
+                return fail("C18_median/minmax: score of %r is NaN although the table is not degenerate" % n)
+            if abs(x - float(md[n])) > tolf:
+                what = "C18_minmax: min-max normalised median" if mi else "C18_median: median of the feature-label scores"
+                return fail("%s of %r is %.15g, expected %.15g (tolerance %.3g)" % (what, n, x, float(md[n]), tolf))
+        if agg_expected:
+            for n, x in ao:
+                if math.isnan(x) or abs(x - float(ma[n])) > tolf:
+                    return fail("C18_aggregated: combined score of %r is %.15g, expected the median %.15g of the scores of the "
+                                "interactions containing it" % (n, x, float(ma[n])))
+    if chk1 is False:
+        return fail("C18_check: the Coq checker cells_okb rejects feature_singles.tsv")
+    if agg_expected and chk2 is False:
+        return fail("C18_check: the Coq checker aggregated_cells_okb rejects feature_singles_aggregated.tsv")
     return res
 
 
@@ -343,8 +383,8 @@ def check(run, replay):
         for _ in range(n):
             cases.append(gen_case(run.rng))
     ev = evaluate(cases)
-    run.oblige("correspondence:feature_singles.tsv / feature_singles_aggregated.tsv = model, accepted by the Coq checkers", True)
     hist = {"features": {}, "order": {}, "heuristic_MI": 0, "heuristic_other": 0, "annotated": 0, "degenerate_minmax": 0,
+            "near_degenerate_minmax": 0, "names_with_AND_substring_not_joiner": 0, "names_with_dash_before_annotation": 0,
             "no_label_rows": 0, "with_aggregated_rows": 0, "rows": {}, "status": {}}
     worst = None
     for c, e in zip(cases, ev):
@@ -356,6 +396,13 @@ def check(run, replay):
             hist["annotated"] += 1
         if e.get("degenerate"):
             hist["degenerate_minmax"] += 1
+        if e["status"] == "ok-near-degenerate":
+            hist["near_degenerate_minmax"] += 1
+        allnames = {x for a, b, _ in c["rows"] for x in (a, b)}
+        if any("AND" in x.replace(" AND ", "") for x in allnames):
+            hist["names_with_AND_substring_not_joiner"] += 1
+        if any("-" in (x[:x.rfind("-(")] if "-(" in x else x) for x in allnames):
+            hist["names_with_dash_before_annotation"] += 1
         if nf == 0:
             hist["no_label_rows"] += 1
         if e["model"]["aggregated"]:
@@ -375,20 +422,28 @@ def check(run, replay):
                 if e2["status"] == "violation":
                     c, e = small, e2
         nbad = hist["status"].get("violation", 0)
-        run.violation("counterexample", "C18 correspondence (model = implementation; singles_okb / aggregated_okb)", case=c,
+        run.violation("counterexample", "C18 correspondence (model = implementation; cells_okb / aggregated_cells_okb)", case=c,
                       impl=e["impl"], model=e["model"], clause=e["clause"],
-                      extra={"checker_verdict": e["checker"], "failing_cases_in_run": nbad, "total": len(cases)})
-        run.obligations[-1] = (run.obligations[-1][0], False, "%d of %d cases differ" % (nbad, len(cases)))
+                      extra={"checker_verdict": e["checker"], "tolerance": e.get("tol"), "failing_cases_in_run": nbad,
+                             "total": len(cases)})
+    nbad = hist["status"].get("violation", 0)
+    run.oblige("correspondence:feature_singles.tsv / feature_singles_aggregated.tsv = model, accepted by the Coq checkers",
+               nbad == 0, "" if nbad == 0 else "%d of %d cases differ" % (nbad, len(cases)))
     run.cov["input_distribution"] = hist
-    run.cov["excluded_from_score_comparison"] = {
-        "MI heuristic with all medians equal (0/0 -> NaN cells in the code; C18_minmax needs two distinct medians)": hist["degenerate_minmax"]}
+    run.cov["score_comparison"] = {
+        "NaN table (MI heuristic, all medians equal incl. a single feature): rows, order and NaN cells compared; C18_minmax's "
+        "'best 1, worst 0' cannot hold there": hist["degenerate_minmax"],
+        "near-degenerate (MI heuristic, max-min < 1e-9*max|median|): rows and order compared, scores NOT compared": hist["near_degenerate_minmax"]}
     run.cov["exhaustive"] = False
     run.samples = cases[:2]
     run.assumptions += [
-        "domain (generated and assumed by C18_aggregated_wellformed / C18_label_rule): label and constituent names contain no '-' and "
-        "no blank, 'AND' occurs in names only inside the ' AND ' joiner, names are not pandas NA tokens and do not look like numbers",
+        "the model is a transcription for ARBITRARY names (dashes, blanks, AND substrings are generated and compared); only "
+        "C18_aggregated_wellformed / C18_label_rule / C18_constituents assume: no '-' in label and constituents, no ' AND ' inside a "
+        "constituent or completed by its end, no ' AND ' in the annotation (each shown necessary by a _refuted witness)",
+        "generated names are not pandas NA tokens, do not look like numbers, contain no tab / quote / newline",
         "scores are written as decimal text; the model reads the text as an exact rational, the code as the nearest double",
-        "tolerance: 1e-12*max(1,|x|) on medians; for MI heuristics 1e-12 + 1e-14*max|median|/(max-min) (conditioning of (x-min)/(max-min))",
+        "ONE absolute tolerance per case for Python and Coq alike: 1e-12*max(1,max|median|) without 'MI'; with 'MI' "
+        "1e-12 + 1e-14*max|median|/(max-min), cases with max-min < 1e-9*max|median| excluded from the score comparison and counted",
         "order of rows with equal scores is not fixed by the property (pandas' unstable sort): tie groups are compared as multisets; "
         "the aggregated table is compared as a mapping constituent -> score",
     ]
